@@ -8,6 +8,7 @@ THEOREMS = [
     "C28_write_tree_flat_partial", "C28_write_tree_flat_git_partial", "C28_ita_refuted",
     "C28_commit_symlink_refuted", "C28_commit_files",
     "C28_rm_file_eq", "C28_rm_dir_missing_refuted", "C28_rm_untracked_dir_refuted",
+    "C28_rm_below_file_refuted", "C28_rm_deleted_dir_refuted",
     "C28_mv_eq_partial", "C28_mv_stat_refuted", "C28_mv_mkdir_refuted",
     "C28_clean_d_eq_partial", "C28_clean_subdir_refuted",
     "C28_clean_ignored_dir_refuted", "C28_add_below_tracked_file_refuted",
@@ -118,6 +119,12 @@ def deviation(c):
             return "add-dir-replaced-by-file"
         if op == "add" and isdir(p) and pg.ignored(st, p + "/\x01"):
             return "add-ignored-explicit"
+    if op == "rm" and any(under(q, p) for q in wt) and (p in idx or any(under(p, q) for q in idx)):
+        return "rm-below-file"
+    if op == "rm" and p not in wt and not isdir(p) and p not in idx and any(under(p, q) for q in idx):
+        return "rm-deleted-dir"
+    if op == "mv" and p in idx and isdir(p):
+        return "mv-source-is-directory"
     if op == "rm" and isdir(p) and any(under(p, q) and q not in wt for q in idx):
         return "rm-dir-missing-file"
     if op == "rm" and isdir(p) and any(under(p, d) or d == p for d in st["dirs"]):
@@ -213,6 +220,10 @@ class Main(Suite):
         return cases
 
     def model_expr(self, c):
+        if c["op"] == "mv":
+            st = pg.state_of(c)
+            if c["path"] in st["index"] and c["path"] not in st["wt"] and any(under(c["path"], q) for q in st["wt"]):
+                return None   # Move writes an entry with mode 040000: outside the model's file modes (finding mv-source-is-directory)
         return call("c28_", c)
 
     def nontrivial(self, c):
@@ -284,6 +295,8 @@ class Main(Suite):
                 return items
             if c["op"] == "add" and c["path"] not in pg.state_of(c)["wt"] and pg.ignored(pg.state_of(c), c["path"] + "/\x01"):
                 continue   # an ignored directory named explicitly: the verdict for directories is not part of the state
+            if c["op"] == "mv" and self.model_expr(c) is None:
+                continue
             if c["op"] == "commit":
                 continue   # S's tree listing is checked through the tree id by the oracle; here only index ops
             want_err = bool(ex.get("giterr"))
